@@ -114,3 +114,27 @@ Print Assumptions C04_exact.
 Print Assumptions C04_classes_ci_same.
 Print Assumptions C04_build_ci.
 Print Assumptions C04_build_ci_verbose.
+
+(* NON-VACUITY (Proofs/NonVacuity.v, world W3): C04_exact and C04_build_ci applied to
+   ["A1","a2"] with (?i) and digit conversion (the test case "A1" is lower-cased by the oracle
+   data): the string (?i)^a\d$ parses with the i flag and denotes the specification language
+   under simple case folding. *)
+From Grex Require Proofs.NonVacuity.
+Theorem C04_nonvacuous : exists e s,
+  NonVacuity.world_ok NonVacuity.c_W3 NonVacuity.db_W3 SCPass1 NonVacuity.ws_W3 true e s
+  /\ (forall u, L_expr lit_ci cls_engine e u <-> Spec lit_ci cls_engine NonVacuity.c_W3 NonVacuity.db_W3 NonVacuity.ws_W3 u)
+  /\ (exists fl r, parse NonVacuity.is_ws_std s = Some (fl, r) /\ fl_i fl = true
+        /\ forall u, Forall scalar u ->
+             (L_rast lit_ci cls_engine r u <-> Spec lit_ci cls_engine NonVacuity.c_W3 NonVacuity.db_W3 NonVacuity.ws_W3 u)).
+Proof.
+  pose proof NonVacuity.W3 as W. do 2 eexists. split; [exact W|]. split.
+  - intro u.
+    exact (proj1 (C04_exact _ _ _ _ _ (NonVacuity.w_nonempty _ _ _ _ _ _ _ W) (NonVacuity.w_oracle _ _ _ _ _ _ _ W)
+                    (NonVacuity.w_no_merge _ _ _ _ _ _ _ W) (NonVacuity.w_expr _ _ _ _ _ _ _ W)) u (or_intror NonVacuity.W3_K4)).
+  - destruct (C04_build_ci NonVacuity.isd NonVacuity.is_ws_std NonVacuity.c_W3 NonVacuity.db_W3 SCPass1 NonVacuity.ws_W3 _ eq_refl
+                (NonVacuity.w_nonempty _ _ _ _ _ _ _ W) (NonVacuity.w_scalar _ _ _ _ _ _ _ W) NonVacuity.W3_lower_scalar
+                (NonVacuity.w_oracle _ _ _ _ _ _ _ W) NonVacuity.W3_printable eq_refl NonVacuity.ws_ok_std
+                (NonVacuity.w_no_merge _ _ _ _ _ _ _ W) (NonVacuity.w_build _ _ _ _ _ _ _ W)) as (fl & r & P & I & _ & A & _).
+    exists fl, r. split; [exact P|]. split; [exact I|]. intros u Hu. exact (A u Hu (or_intror NonVacuity.W3_K4)).
+Qed.
+Print Assumptions C04_nonvacuous.
